@@ -72,6 +72,7 @@ class LoggedLock:
         return False
 
 
+MUTEX_LOG = {"available": True}
 HOLD = collections.Counter()      # (call key, thread) -> nesting depth of the call's mutex held by the thread
 _proxies = {}                     # id(underlying lock) -> (underlying lock, proxy): the lock is kept alive so ids stay unique
 
@@ -79,7 +80,12 @@ _proxies = {}                     # id(underlying lock) -> (underlying lock, pro
 def install_mutex_logging(rl):
     """wrap `_mutex_for_invocation` (the one place the runner obtains the per-call mutex) so that the lock it hands out
     is logged; independent of how the table of mutexes is kept. Returns an undo function."""
-    orig = rl._mutex_for_invocation
+    orig = getattr(rl, "_mutex_for_invocation", None)
+    MUTEX_LOG["available"] = orig is not None
+    if orig is None:
+        # the runner obtains its per-call mutex elsewhere (refactored): the acquire / release events of the model's trace are
+        # not available; the oracles (values, executions, accounts) still are
+        return lambda: None
 
     def logged(fn_reference_with_args):
         lk = orig(fn_reference_with_args)
@@ -141,7 +147,9 @@ def make_functions(cluster):
            "@memento_function(cluster=%r)\ndef outer(x):\n    c09.REC.log(x)\n    w = work(x - 200)\n"
            "    return [x, x * x, 'v' if w == [x - 200, (x - 200) * (x - 200), 'v'] else 'inner-wrong']\n\n\n"
            "@memento_function(cluster=%r)\ndef proc(x):\n    c09.REC.log(x + 300)\n    return None\n\n\n"
-           "@memento_function(cluster=%r)\ndef add(a, b):\n    c09.REC.log(400 + a * 10 + b)\n    return a + b\n" % (cluster, cluster, cluster, cluster, cluster))
+           "@memento_function(cluster=%r)\ndef add(a, b):\n    c09.REC.log(400 + a * 10 + b)\n    return a + b\n\n\n"
+           "@memento_function(cluster=%r)\ndef ptab(x):\n    from twosigma.memento.partition import InMemoryPartition\n    c09.REC.log(500 + x)\n"
+           "    return InMemoryPartition({'n': x, 'rows': ['row-%%d-%%d' %% (x, i) for i in range(3)]})\n" % (cluster, cluster, cluster, cluster, cluster, cluster))
     fname = "<%s>" % modname
     linecache.cache[fname] = (len(src), None, src.splitlines(True), fname)
     mod = types.ModuleType(modname)
@@ -163,6 +171,13 @@ VARIANTS = [
     dict(name="ignore-result-waiter/cold/same-key", warm=[], cache="none"),
     dict(name="two-spellings-of-one-call/cold", warm=[], cache="none"),
     dict(name="batch-lookup-vs-single/warm-store-cold-cache", warm=[5, 6, 7], cache="cold"),
+    dict(name="force-local-callers/cold/same-key", warm=[], cache="none"),
+    dict(name="plain-and-force-local-caller/cold/same-key", warm=[], cache="none"),
+    # (line-level yield points only inside the named functions, function entries elsewhere: few enough steps for every
+    # single preemption point to be tried)
+    dict(name="partition-results/cold/different-keys", warm=[], cache="none", line_names=["store", "encode", "memoize"], every_point=True),
+    dict(name="nested-callers-with-stale-version/cold", warm=[], cache="none", memento_lines=True,
+         line_names=["_recompute_version", "_update_dependencies", "_validate_dependency", "dependencies", "hash_rules"], every_point=True),
 ]
 
 
@@ -191,6 +206,17 @@ def variant_trial(var, schedule, root):
             thunks, want, once = [lambda: work(5), lambda: work.ignore_result()(5)], [val(5), None], {5: 1}
         elif kind == "two-spellings-of-one-call":
             thunks, want, once = [lambda: mod.add(1, 2), lambda: mod.add.partial(1)(2)], [3, 3], {412: 1}
+        elif kind == "force-local-callers":
+            thunks, want, once = [lambda: work.force_local()(5), lambda: work.force_local()(5)], [val(5), val(5)], {5: 1}
+        elif kind == "plain-and-force-local-caller":
+            thunks, want, once = [lambda: work(5), lambda: work.force_local()(5)], [val(5), val(5)], {5: 1}
+        elif kind == "partition-results":
+            pshow = lambda p: [p.get("n"), p.get("rows")]
+            thunks = [lambda: pshow(mod.ptab(1)), lambda: pshow(mod.ptab(2))]
+            want, once = [[1, ["row-1-%d" % i for i in range(3)]], [2, ["row-2-%d" % i for i in range(3)]]], {501: 1, 502: 1}
+        elif kind == "nested-callers-with-stale-version":
+            ov = lambda x: [x, x * x, "v"]
+            thunks, want, once = [lambda: outer(205), lambda: outer(205)], [ov(205), ov(205)], {205: 1, 5: 1}
         else:
             thunks, want, once = [lambda: work.call_batch([{"x": 5}, {"x": 6}, {"x": 7}]), lambda: work(5)], [[val(5), val(6), val(7)], val(5)], {5: 0, 6: 0, 7: 0}
 
@@ -203,8 +229,16 @@ def variant_trial(var, schedule, root):
         import twosigma.memento.storage_filesystem as sfs
         rl_file = rl.__file__
         files = {sbase.__file__, sfs.__file__}
-        S = sched.Sched(lambda c: c.co_filename == rl_file or c.co_filename == sbase.__file__, block_timeout=0.08,
-                        want_call=lambda c: c.co_filename in files)
+        import twosigma.memento.memento as mmod
+        lines_in = {rl_file, sbase.__file__} | ({mmod.__file__} if var.get("memento_lines") else set())
+        names = set(var.get("line_names") or [])
+        if names:
+            want_line = lambda c: c.co_filename in lines_in and c.co_name in names
+            call_files = files | {rl_file} | ({mmod.__file__} if var.get("memento_lines") else set())
+        else:
+            want_line = lambda c: c.co_filename in lines_in
+            call_files = files
+        S = sched.Sched(want_line, block_timeout=0.08, want_call=lambda c: c.co_filename in call_files)
         results, steps, _ = S.run([wrap(i, f) for i, f in enumerate(thunks)], schedule)
         fails = []
         for i, (r, w) in enumerate(zip(results, want)):
@@ -214,6 +248,18 @@ def variant_trial(var, schedule, root):
         for x, n in once.items():
             if execs.get(x, 0) > n:
                 fails.append(dict(clause="single-flight", arg=x, executions=execs.get(x, 0), expected=n))
+        # afterwards every call once more, one after the other: served, with the right value
+        _tid.i = 99
+        for i, (f, w) in enumerate(zip(thunks, want)):
+            n0 = sum(1 for e in LOG if e[0] == "exec")
+            try:
+                r = ("ok", f())
+            except BaseException as e:      # noqa
+                r = ("raise", type(e).__name__, str(e)[:200])
+            if r != ("ok", w):
+                fails.append(dict(clause="correct-value" if r[0] == "ok" else "no-internal-error", thread=i, when="afterwards", got=str(r)[:200], expected=str(w)))
+            elif sum(1 for e in LOG if e[0] == "exec") != n0:
+                fails.append(dict(clause="single-flight", thread=i, when="afterwards", note="the call was computed again"))
         return fails, steps
     finally:
         m.Environment.set(prev)
@@ -615,7 +661,11 @@ def main(chk, replay=None):
                 shutil.rmtree(root, ignore_errors=True)
             if obs is not None:
                 fails = judge(sc, obs, seq_cache)
-                rej, summ, allidle, lines = model_accepts(sc, obs)
+                if not MUTEX_LOG["available"]:
+                    rej, summ, allidle, lines = [], None, True, []
+                    chk.correspondence_break("conc-model:mutex-events-unavailable", dict(scenario=sc["name"], note="runner_local._mutex_for_invocation is gone"))
+                else:
+                    rej, summ, allidle, lines = model_accepts(sc, obs)
                 if rej:
                     chk.correspondence_break("conc-model:trace-rejected", dict(scenario=sc["name"], schedule=sch, first_rejected=rej[0], trace=lines[:60]))
                 elif not allidle:
@@ -655,8 +705,15 @@ def main(chk, replay=None):
         _, steps = variant_trial(var, [(0, 10 ** 6), (1, 10 ** 6)], root)
         shutil.rmtree(root, ignore_errors=True)
         nsteps = max(steps)
-        scheds = schedules_single_preemption(nsteps, 2, stride=(max(1, nsteps // 25) if quick else 1))
-        scheds += [random_schedule(rng, 2, nsteps, rng.randint(2, 5)) for _ in range(6 if quick else 100)]
+        scheds = schedules_single_preemption(nsteps, 2, stride=(max(1, nsteps // (60 if var.get("every_point") else 25)) if quick else 1))
+        scheds += [random_schedule(rng, 2, nsteps, rng.randint(2, 5)) for _ in range((20 if var.get("every_point") else 6) if quick else 300)]
+        chk.extra.setdefault("family_V_steps", {})[var["name"]] = nsteps
+        if var.get("memento_lines"):
+            # two preemptions: the first thread is stopped at p1, the second one runs up to p2, then the first one goes on
+            # (a version being re-derived by one thread while the other is already past its own check)
+            # quick: the first 120 steps of both threads (where versions are derived and checked), thorough: all of them
+            lim = min(nsteps, 121) if quick else nsteps
+            scheds += [[(0, p1), (1, p2), (0, 10 ** 6), (1, 10 ** 6)] for p1 in range(1, lim, 8 if quick else 5) for p2 in range(1, lim, 6 if quick else 5)]
         for sch in scheds:
             root = tempfile.mkdtemp(prefix="c09v_", dir=chk.tmpdir())
             try:
